@@ -13,10 +13,11 @@ Same(e, o) == /\ Len(e) = Len(o)
               /\ \A j \in 1..Len(e) : e[j][1] = o[j][1] /\ e[j][2] = o[j][2]
 \* every cut position of the input must have been recorded, and each result must equal the reference
 RowOK == LET r == Rows[k]
-             e == RefPairs(r.in, r.mode, r.plus)
+             e == IF r.kind = "dec" THEN RefPairsX(r.in, [mode |-> r.mode, plus |-> r.plus, udec |-> r.udec, nulenc |-> r.nulenc, nulraw |-> r.nulraw])
+                  ELSE RefPairs(r.in, r.mode, r.plus)
          IN /\ (r.kind = "exh" => Len(r.outs) = (IF Len(r.in) = 0 THEN 1 ELSE Len(r.in)))
             /\ Len(r.outs) >= 1
             /\ \A c \in 1..Len(r.outs) : Same(e, r.outs[c])
 \* the declared space was covered completely: number of distinct (in, mode, plus, via) rows, printed for the harness
-ASSUME PrintT(<<"CENSUS", Len(Rows), Cardinality({<<Rows[i].in, Rows[i].mode, Rows[i].plus, Rows[i].via>> : i \in 1..Len(Rows)})>>)
+ASSUME PrintT(<<"CENSUS", Len(Rows), Cardinality({<<Rows[i].in, Rows[i].mode, Rows[i].plus, Rows[i].via, Rows[i].udec, Rows[i].nulenc, Rows[i].nulraw>> : i \in 1..Len(Rows)})>>)
 =============================================================================
